@@ -40,7 +40,10 @@ var _ proto.Packet = (*Disconnect)(nil)
 
 // NewDisconnect creates a new Disconnect packet.
 func NewDisconnect(reason component.Component, protocol proto.Protocol, stat states.State) *Disconnect {
-	if stat == states.LoginState {
+	if stat == states.LoginState && protocol.GreaterEqual(version.Minecraft_1_20_3) {
+		// The login disconnect reason stays JSON in 1.20.3+: serialise like 1.20.2.
+		// Older clients keep the JSON dialect of their own version (e.g. no hex colours
+		// before 1.16).
 		protocol = version.Minecraft_1_20_2.Protocol
 	}
 	if reason == nil {
